@@ -1,20 +1,21 @@
 (* C19 - Build ordering respects build-dependencies between the given sources.
    Property theorems only.  Model: TS.sort = pault.ag/go/topsort v0.1.1 (repeated passes with in-pass
    marking), TS2.order_dscs = control.OrderDSCForBuild over sources identified by position (distinct names):
-   binary -> source map filled in input order (last provider wins), one edge per picked build-dependency
-   name that some source provides.  TS3 composes it with the reader, the list decoder, the dependency parser
+   binary -> sources map (EVERY source whose Binary field lists the binary, in input order), one edge from each of
+   them per picked build-dependency name.  TS3 composes it with the reader, the list decoder, the dependency parser
    and GetPossibilities so that the tie runs the whole path from .dsc text. *)
 From Coq Require Import List Ascii String Bool Arith Lia Permutation.
 Require Import GS TS TS2 TS3 TS4.
 Require R2 R2u L10.
 Import ListNotations.
 
-(* the order is a permutation of the input in which every source comes after the provider of each binary it
-   picked from Build-Depends, Build-Depends-Arch and Build-Depends-Indep, and that provider does build it *)
+(* the order is a permutation of the input in which every source comes after EVERY source that builds a binary it
+   picked from Build-Depends, Build-Depends-Arch and Build-Depends-Indep (until repair 0173c55 this theorem said "after the
+   LAST source listing the binary" - the model was faithful, and the property asks for each of them) *)
 Theorem C19_order_respects_build_dependencies : forall srcs l, order_dscs srcs = SOk l ->
   Permutation l (seq 0 (List.length srcs)) /\
-  forall l1 i l2, l = l1 ++ i :: l2 -> forall b t, In b (picked (nth_src srcs i)) -> src_of srcs b = Some t ->
-    In t l1 /\ builds b (nth_src srcs t) = true.
+  forall l1 i l2, l = l1 ++ i :: l2 -> forall b t, In b (picked (nth_src srcs i)) ->
+    t < List.length srcs -> builds b (nth_src srcs t) = true -> In t l1.
 Proof. exact C19_order. Qed.
 Print Assumptions C19_order_respects_build_dependencies.
 
@@ -43,8 +44,8 @@ Theorem C19_order_from_dsc_texts : forall arch ts names, order_texts arch ts = O
   exists ds l, dscs_of_texts arch ts = Some ds /\ List.length ds = List.length ts /\
     names = map (fun i => d_source (nth i ds no_dsc)) l /\
     Permutation l (seq 0 (List.length ts)) /\
-    forall l1 i l2, l = l1 ++ i :: l2 -> forall b t, In b (picked (d_src (nth i ds no_dsc))) -> src_of (map d_src ds) b = Some t ->
-      In t l1 /\ In b (binaries (d_src (nth t ds no_dsc))).
+    forall l1 i l2, l = l1 ++ i :: l2 -> forall b t, In b (picked (d_src (nth i ds no_dsc))) ->
+      t < List.length ts -> In b (binaries (d_src (nth t ds no_dsc))) -> In t l1.
 Proof. exact C19_order_from_texts. Qed.
 Theorem C19_cycle_from_dsc_texts : forall arch ts, order_texts arch ts = OCycle ->
   exists ds, dscs_of_texts arch ts = Some ds /\ forall t, ~ topological (build_graph (map d_src ds)) t.
